@@ -51,6 +51,7 @@ class Gen {
     const strs = this.locals('str')
     const objs = this.locals('obj')
     const sub = () => this.expr(d + 1)
+    const inFn = (f) => { const g = this.inGen; const a = this.inAsync; this.inGen = false; this.inAsync = false; try { return f() } finally { this.inGen = g; this.inAsync = a } }
     return r.weighted([
       [4, () => this.atom()],
       [6, () => this.P(`${sub()} + ${sub()}`)],
@@ -74,10 +75,10 @@ class Gen {
       [1.5, () => this.optional(d)],
       [1.5, () => this.protoCall(d)],
       [this.fnNames.length ? 3 : 0, () => this.userCall(d)],
-      [1, () => `(() => ${sub()})()`],
-      [0.7, () => `(function () { return ${sub()} })()`],
+      [1, () => inFn(() => `(() => ${sub()})()`)],
+      [0.7, () => inFn(() => `(function () { return ${sub()} })()`)],
       [0.7, () => `w.id${this.id()}(${sub()})`],
-      [0.7, () => `w.cb${this.id()}((x${this.id()}) => ${sub()})`],
+      [0.7, () => inFn(() => `w.cb${this.id()}((x${this.id()}) => ${sub()})`)],
       [this.inGen ? 2 : 0, () => `(yield ${sub()})`],
       [this.inAsync ? 2 : 0, () => `(await ${sub()})`],
       [0.5, () => `aloneMethod(${sub()})`],
@@ -229,10 +230,12 @@ class Gen {
       [0.6, () => { this.emit(indent, `lbl${this.id()}: {`); this.block(indent + 1, 1); this.emit(indent, '}') }],
       [0.6, () => { // closures created in a loop, invoked later
         const fs = 'fs' + this.id(); const i = 'i' + this.id()
+        const g0 = this.inGen; const a0 = this.inAsync; this.inGen = false; this.inAsync = false
         this.emit(indent, `const ${fs} = []; for (let ${i} = 0; ${i} < 2; ${i}++) ${fs}.push(() => ${this.expr(2)} + ${i});`)
+        this.inGen = g0; this.inAsync = a0
         this.emit(indent, `for (const f of ${fs}.reverse()) w.out(f());`)
       }],
-      [0.5, () => { const k = 'K' + this.id(); this.emit(indent, `class ${k} { m(p) { return ${this.expr(2)} + p } static sm() { return ${this.expr(2)} } }`); this.emit(indent, `w.out(new ${k}().m(${this.atom()}) + ${k}.sm());`) }]
+      [0.5, () => { const k = 'K' + this.id(); const g0 = this.inGen; const a0 = this.inAsync; this.inGen = false; this.inAsync = false; this.emit(indent, `class ${k} { m(p) { return ${this.expr(2)} + p } static sm() { return ${this.expr(2)} } }`); this.inGen = g0; this.inAsync = a0; this.emit(indent, `w.out(new ${k}().m(${this.atom()}) + ${k}.sm());`) }]
     ])()
   }
 
@@ -244,7 +247,7 @@ class Gen {
     const params = []
     this.scopes.push([])
     for (let i = 0; i < arity; i++) { const p = 'p' + this.id(); params.push(p); this.scopes[this.scopes.length - 1].push({ name: p, kind: 'str' }) }
-    const strictFn = r.bool(0.15)
+    const strictFn = kind !== 'rec' && r.bool(0.15)
     this.depthFn++
     const savedGen = this.inGen
     const savedAsync = this.inAsync
